@@ -60,6 +60,10 @@ def cases(tier):
                  if len(s["id"]["devs"]) == 2]
     for s in base:
         s["opts"]["dur"] = 6 * H
+        # the [PIPES] status field holds ONE of OPEN / CLOSED / CV: an initially closed check-valve pipe is not expressible
+        # in the file EPANET gets (it is written as CV, i.e. open) - outside the common feature set
+        if any(l["t"] == "pipe" and l.get("cv") and l["status"] == "CLOSED" for l in s["links"]):
+            continue
         out.append(s)
     # control deviations (alone, and with clock3h / pdd / hyd30)
     for name, sk in netspace.skeletons().items():
